@@ -197,6 +197,28 @@ J_coil(e) ==
          (IF Dev_C11_F1(e, i) THEN "known:C11-F1" ELSE "coil-value-differs-from-modbus-bit-layout")
     ELSE "ok"
 
+\* builder-style extraction of coil fields: one result per field, in order
+J_coilextract(e) ==
+    IF e.outcome = "panic" THEN "panic"
+    ELSE IF Len(e.results) # Len(e.addrs) THEN "coil-extraction-result-count-differs"
+    ELSE LET verdictAt(i) == J_coil([payload |-> e.payload, start |-> e.start, addr |-> e.addrs[i],
+                                      outcome |-> e.results[i].outcome, value |-> e.results[i].value])
+             bad == {i \in DOMAIN e.addrs : verdictAt(i) # "ok" \/ e.results[i].addr # e.addrs[i]}
+         IN IF bad = {} THEN "ok" ELSE verdictAt(CHOOSE i \in bad : TRUE)
+
+\* write-multiple-coils, then read back through a device that stores what the request carries
+J_coilroundtrip(e) ==
+    IF e.outcome = "panic" THEN "panic"
+    ELSE IF ~e.accepted THEN "ok"
+    ELSE LET n == Len(e.coils)
+             d == IF e.framing = "tcp" THEN DecodeTCPReq(e.bytes) ELSE DecodeRTUReq(e.bytes)
+         IN IF ~d.ok \/ d.r.fc # 15 \/ d.r.qty # n THEN "write-coils-request-does-not-decode"
+            ELSE IF UnpackCoils(d.r.data, n) # e.coils THEN "write-coils-request-carries-a-different-pattern"
+            ELSE IF e.got = e.coils THEN "ok"
+            ELSE IF Len(d.r.data) >= 2 /\ e.got = [i \in 1..n |-> BitOf(d.r.data[Len(d.r.data) - ((i - 1) \div 8)], (i - 1) % 8)]
+                 THEN "known:C11-F1"
+            ELSE "coil-pattern-not-recovered-by-read-back"
+
 ----------------------------------------------------------------------------
 Judge(e) ==
     CASE e.op = "newreq"            -> J_newreq(e)
@@ -213,6 +235,8 @@ Judge(e) ==
       [] e.op = "trailer"           -> J_trailer(e)
       [] e.op = "trailer_all"       -> J_trailer_all(e)
       [] e.op = "coil"              -> J_coil(e)
+      [] e.op = "coilextract"       -> J_coilextract(e)
+      [] e.op = "coilroundtrip"     -> J_coilroundtrip(e)
       [] OTHER                      -> "unknown-event"
 
 Init == l = 1
